@@ -555,6 +555,17 @@ def check_l2(K, case):
         est = cls(n_clusters=case["k"], init=init, n_init=case["n_init"], max_iter=case["max_iter"],
                   random_state=case["seed"], tol=case.get("tol", 1e-4), algorithm=case.get("algorithm", "lloyd"),
                   **extra)
+        if case.get("history") == "l1-array-init" and cls is K.KMeansL1L2:
+            # the same object served an L1 fit started from given centres first, then received its L2 configuration
+            # through set_params: "L2 exactly KMeans" is about the parameters the object reports NOW
+            with warnings.catch_warnings():
+                warnings.simplefilter("ignore")
+                try:
+                    est.set_params(norm="L1", init=numpy.unique(X, axis=0)[:case["k"]].copy())
+                    est.fit(X)
+                except Exception:  # noqa: BLE001
+                    pass
+                est.set_params(norm="L2", init=init)
         # the same call on both: optional sample weights (constant, or small integers) are part of "the same fit"
         w = None
         if case.get("w") == "const":
@@ -625,6 +636,8 @@ def search(ctx, hints):
             if kind == "L2":
                 inp["tol"], inp["algorithm"] = case.get("tol", 1e-4), case.get("algorithm", "lloyd")
                 inp["w"] = case.get("w")
+                if case.get("history"):
+                    inp["history"] = case["history"]
             if "Q" in case:
                 inp["Q"] = case["Q"]
             v = Violation("KMeansL1L2." + key, what, inp, obs, req)
@@ -652,6 +665,14 @@ def search(ctx, hints):
                                "k": rng.choice([2, 3]), "d": 2, "init": "random", "n_init": 1,
                                "max_iter": rng.choice([3, 5, 10, 30]), "dtype": "float64", "seed": rng.randrange(1 << 30),
                                "Q": [[0, 0]]}))
+    # histories: an L1 fit from given centres, then the L2 configuration through set_params; several initialisations
+    # on data where the best of them beats the first
+    for t in range(ctx.pick(6, 40)):
+        n, k = rng.randint(60, 140), rng.randint(5, 8)
+        cases.append(("history", {"flavour": "history", "mode": "random", "kind": "L2", "history": "l1-array-init",
+                                  "X": [[rng.randint(0, 40) / 4.0, rng.randint(0, 40) / 4.0] for _ in range(n)],
+                                  "k": k, "d": 2, "init": "random", "n_init": rng.choice([5, 10]), "max_iter": 30,
+                                  "dtype": "float64", "seed": rng.randrange(1 << 30), "Q": [[0, 0]]}))
     for origin, case in cases:
         if case["init"] == "callable" and case.get("kind") == "L2":
             case["init"] = "random"
